@@ -169,7 +169,10 @@ class P21Check(_CheckBase):
     shrinking, and the shrinking moves that all file-based checks share."""
     engine = "p21sim"
     label = "p21"
-    n_generated = {"quick": 3, "thorough": 16}
+    # the file-based checks draw their generated schemas from ONE seeded pool (same names, same libraries): every check sees all of them for
+    # the build cost of one set.  Checks that need other constructs (C01: renamed types, C11: INVERSE) name their own pool.
+    pool = "pool"
+    n_generated = {"quick": 10, "thorough": 30}
     feature_overrides = {"renamed_select": False, "renamed_enum": False}   # constructs of open C01 findings stay out
     max_insts = 12
     sizes = [1, 2, 3, 5, 8]
@@ -181,7 +184,7 @@ class P21Check(_CheckBase):
         if getattr(self, "replay_mode", False):
             self.ss = SchemaSet()
             return
-        defs = schema_defs(seed, tier, self.n_generated[tier], label=self.label, feature_overrides=self.feature_overrides)
+        defs = schema_defs(seed, tier, self.n_generated[tier], label=self.pool, feature_overrides=self.feature_overrides)
         self.ss = build_schema_set(defs)
         if not self.ss.items:
             raise RuntimeError("no schema library could be built: %s" % self.ss.rejected)
